@@ -88,6 +88,7 @@ type Snap struct {
 	T     time.Time
 	U     map[int]bool // message idx outstanding on the source at T
 	Fuzz  map[int]bool // message idx whose state on the source was not known
+	Had   map[int]bool // every message the subscription held a delivery of when the snapshot was taken
 }
 
 // Viol is an oracle violation.
@@ -1138,8 +1139,9 @@ func (m *Model) Snapshot(name, sub string, now time.Time) codes.Code {
 	if s == nil {
 		return codes.NotFound
 	}
-	sn := &Snap{Name: name, Topic: s.Topic, SubG: s.Gen, T: now, U: map[int]bool{}, Fuzz: map[int]bool{}}
+	sn := &Snap{Name: name, Topic: s.Topic, SubG: s.Gen, T: now, U: map[int]bool{}, Fuzz: map[int]bool{}, Had: map[int]bool{}}
 	for _, d := range s.Dels {
+		sn.Had[d.Msg.Idx] = true
 		switch {
 		case d.State == Out && m.expiry(d, now) == -1:
 			sn.U[d.Msg.Idx] = true
@@ -1164,7 +1166,11 @@ func (m *Model) SeekSnap(sub, snap string, now time.Time) {
 	for _, d := range s.Dels {
 		d.Seek = true
 		e := m.expiry(d, now)
-		if e != -1 || sn.Fuzz[d.Msg.Idx] || d.Origin != nil {
+		// a message the snapshotted subscription never held (the two
+		// subscriptions' filters differed at some time) and that is older than
+		// the snapshot: whether it counts as acknowledged is not defined
+		foreign := s.Gen != sn.SubG && !sn.Had[d.Msg.Idx] && m.pubCmp(d, sn.T) != 1
+		if e != -1 || sn.Fuzz[d.Msg.Idx] || d.Origin != nil || foreign {
 			// expiry x snapshot seek and forwarded deliveries: outside what the
 			// statement pins down (the implementation revives a completed delivery
 			// whose retention is over with a fresh retention; "restores exactly the
